@@ -18,6 +18,7 @@ import tempfile
 import numpy as np
 
 from vf import core
+from vf.gen import c18_spellings as SPL
 from .common import chunks
 
 RULE = ("one evaluation = one snapshot comparison of one operand around one depth-0 call: (a) an input of any call is "
@@ -28,7 +29,10 @@ RULE = ("one evaluation = one snapshot comparison of one operand around one dept
         "ufunc/function name, method and out= form, operand position, operand class dtype-family x own/view/scalar, outcome or "
         "exception class, injected fault kind); for the operand swept by the rescaled-operand group (mixed convertible units, non-mutating binary "
         "ufunc call / operator / .outer / two-operand array function) the operand class is replaced by its exact dtype incl. byte order and its "
-        "memory layout: (rescaled-operand, op id, position, dtype, layout, outcome)")
+        "memory layout: (rescaled-operand, op id, position, dtype, layout, outcome); for the operand (array or Unit object) swept by the spelled-operand group "
+        "(unit written in a non-reduced compound spelling) it is replaced by spelling family, the route by which the operand got the unit and the kind of the "
+        "other operand: (spelled-operand, op id, position, family, route, partner kind, outcome); a target that is not writeable is recorded as "
+        "(read-only-target, op id, exception, operand class, layout)")
 ASSUMPTIONS = (
     "snapshots are taken with ndarray.tobytes()/sympy structural equality on the operands; NumPy and sympy are trusted",
     "the 'corresponding copying call' is the documented twin (convert_to_units->in_units, convert_to_base->in_base, convert_to_cgs->in_cgs, "
@@ -65,6 +69,23 @@ ASSUMPTIONS = (
     "a bare ndarray combined with a scaled pure number (percent) is an operand like any other and must be left unchanged; a boolean 0-d operand is "
     "built as a 0-d unyt_array because unyt_quantity refuses booleans; writeable/aligned flags and the Python class of an operand are not part of "
     "'numbers, unit and dtype' and are not compared",
+    "the unit of an operand is its expression as written, its scale, offset and dimensions: a call that rewrites an input's unit into another spelling of equal "
+    "value (m**2/cm -> 100*m) has changed it - str/repr/pickle of the caller's object change - even though Unit.__eq__ still holds",
+    "spelled-operand sweep: units in non-reduced compound spellings (two or more symbols of one dimension: ratio, square-over, cross, triple, fractional power, "
+    "numeric coefficient ...; generated from per-dimension symbol tables checked against vf.ref.defs) reach the operand by every route (string, Unit arithmetic, "
+    "data times Unit, a private registry's parsed-string cache, Unit.copy, pickle, .units assignment) and meet every elementwise binary ufunc (call, reflected call, "
+    "operator, reflected operator, .outer) with every kind of operand that carries no unit (Python int/float/bool/complex, Fraction, Decimal, NumPy scalars, 0-d and "
+    "n-d ndarrays, list, tuple, range, unyt_quantity/unyt_array built without units, Unit()) and a few unit-carrying ones, every unary ufunc, the conversion/copy/"
+    "reduction methods, array functions, and Unit arithmetic on the spelled Unit object itself. Each case draws its own spelling because unyt memoises unit rules per "
+    "expression; a quarter of the calls are repeated on the same operands (memoised path). Judged by clause (a) (clause (b) for the failing in-place templates)",
+    "whether the generated spellings are non-reduced in the library's own sense is recorded as evidence only (Unit.simplify() on a throw-away object built by Unit "
+    "arithmetic, after the judged call, invisible to the observer); a run in which fewer than half of the sampled spellings are reducible is INCONCLUSIVE",
+    "Unit objects other than the operands of a call (later arrays built from the same text in the same registry) are not inputs of that call and are not judged",
+    "read-only targets: a target NumPy refuses to write to (read-only array, read-only view of a writeable buffer, read-only 0-d quantity, transposed read-only view, "
+    "array over a bytes object) is a fault like the other invalid inputs - every in-place family (convert_to_*, with and without equivalence, augmented assignment, "
+    "out= of ufuncs and their methods, ufunc.at, array functions with out= or a destination, item assignment) is driven with one and judged by clause (b); their "
+    "failed-target keys carry ':read-only-target:<dtype family of the target>' and use one template per ufunc arity and method instead of one per ufunc, because what "
+    "happens to such a target is decided before the ufunc loop runs",
     "keys: failed-target keys carry what changed (data/unit) and the exception class, input-mutated keys the operand position and dtype family, "
     "differs-from-copying keys 'rounding' (<= 64 ulp or next to the subnormal range) vs 'value' and the dtype family of the target",
 )
@@ -72,7 +93,7 @@ MIN_EVALS = 20000
 TIMEOUT = 1500
 
 FAULTS = ("dimension-mismatch", "unknown-unit", "irreducible-unit", "invalid-equivalence", "equivalence-not-covering",
-          "non-dimensionless-exponent", "int8-buffer", "int-out-buffer", "offset-unit", "junk-operand", "list-mismatch")
+          "non-dimensionless-exponent", "int8-buffer", "int-out-buffer", "offset-unit", "junk-operand", "list-mismatch", "read-only-target")
 
 KINDS = {"quick": ["own", "step", "T", "scalar", "elem", "col"],
          "thorough": ["own", "step", "rev", "T", "col", "scalar", "elem", "size1", "empty", "2d"]}
@@ -375,6 +396,203 @@ def rescale_items():
     return items
 
 
+# ---------------------------------------------------------------------------------------------- spelled-operand sweep
+# Operands whose unit is written in a non-reduced compound spelling (vf/gen/c18_spellings.py: family x route) meet every non-mutating
+# call form, next to operands without any unit in every kind Python/NumPy/unyt offer.  One case = one call with its own freshly drawn
+# spelling (unyt memoises unit rules per unit expression: only the first call per expression and rule in a process takes the uncached
+# path), a quarter of the cases repeat the call on the same operands (memoised path).
+S_FORMS2 = ["call", "rcall", "op", "rop", "outer"]
+S_FORMS1 = ["call", "method"]
+# method templates: name -> (callable(unyt, x, sp), layouts, kind) ; kind: "tap" = the entry point is tapped (judged under its own op id),
+# "manual" = declared as a manual event, "inplace" = tapped in-place call whose target is x ; fault: name in S_FAULTY
+S_METHODS = {
+    "to-commens": (lambda u, x, sp: x.to(sp.commens), "any", "tap"), "in_units-commens": (lambda u, x, sp: x.in_units(sp.commens), "any", "tap"),
+    "to_value-commens": (lambda u, x, sp: x.to_value(sp.commens), "any", "tap"), "to-commens-Unit": (lambda u, x, sp: x.to(u.Unit(sp.commens)), "any", "tap"),
+    "to-own-text": (lambda u, x, sp: x.to(sp.text), "any", "tap"), "to-own-units": (lambda u, x, sp: x.to(x.units), "any", "tap"),
+    "to-own-quantity": (lambda u, x, sp: x.to(u.unyt_quantity(2.0, sp.text)), "any", "tap"),
+    "in_base": (lambda u, x, sp: x.in_base(), "any", "tap"), "in_cgs": (lambda u, x, sp: x.in_cgs(), "any", "tap"), "in_mks": (lambda u, x, sp: x.in_mks(), "any", "tap"),
+    "in_base-imperial": (lambda u, x, sp: x.in_base("imperial"), "any", "tap"), "in_base-galactic": (lambda u, x, sp: x.in_base("galactic"), "any", "tap"),
+    "to_value": (lambda u, x, sp: x.to_value(), "any", "tap"), "copy": (lambda u, x, sp: x.copy(), "any", "tap"),
+    "to_ndarray": (lambda u, x, sp: x.to_ndarray(), "any", "tap"), "deepcopy": (lambda u, x, sp: __import__("copy").deepcopy(x), "any", "tap"),
+    "copy.copy": (lambda u, x, sp: __import__("copy").copy(x), "any", "manual"), "np.copy": (lambda u, x, sp: np.copy(x, subok=True), "any", "tap"),
+    "pickle": (lambda u, x, sp: __import__("pickle").loads(__import__("pickle").dumps(x)), "any", "manual"),
+    "to-other": (lambda u, x, sp: x.to(sp.other), "any", "tap"), "to-unknown": (lambda u, x, sp: x.to("flurbs"), "any", "tap"),
+    "to_equivalent-other": (lambda u, x, sp: x.to_equivalent(sp.other, "thermal"), "any", "tap"), "in_base-bogus": (lambda u, x, sp: x.in_base("bogus"), "any", "tap"),
+    "to-bad-equivalence": (lambda u, x, sp: x.to(sp.other, "nope"), "any", "tap"),
+    "convert_to_units-other": (lambda u, x, sp: x.convert_to_units(sp.other), "any", "inplace"),
+    "convert_to_units-unknown": (lambda u, x, sp: x.convert_to_units("flurbs"), "any", "inplace"),
+    "convert_to_base-bogus": (lambda u, x, sp: x.convert_to_base("bogus"), "any", "inplace"),
+    "convert_to_equivalent-bad": (lambda u, x, sp: x.convert_to_equivalent(sp.other, "nope"), "any", "inplace"),
+    "convert_to_units-commens": (lambda u, x, sp: x.convert_to_units(sp.commens), "any", "inplace"),
+    "pow2": (lambda u, x, sp: x ** 2, "any", "tap"), "pow-half": (lambda u, x, sp: x ** 0.5, "any", "tap"), "pow0": (lambda u, x, sp: x ** 0, "any", "tap"),
+    "pow-1": (lambda u, x, sp: x ** -1, "any", "tap"), "pow-self": (lambda u, x, sp: x ** x, "any", "tap"), "neg": (lambda u, x, sp: -x, "any", "tap"),
+    "abs": (lambda u, x, sp: abs(x), "any", "tap"), "pos": (lambda u, x, sp: +x, "any", "tap"), "getitem": (lambda u, x, sp: x[..., ], "any", "tap"),
+    "getitem-0": (lambda u, x, sp: x[0], "nd", "tap"), "iter": (lambda u, x, sp: list(iter(x)), "nd", "manual"),
+    "sum": (lambda u, x, sp: x.sum(), "any", "manual"), "prod": (lambda u, x, sp: x.prod(), "any", "manual"), "mean": (lambda u, x, sp: x.mean(), "any", "manual"),
+    "std": (lambda u, x, sp: x.std(), "any", "manual"), "var": (lambda u, x, sp: x.var(), "any", "manual"), "cumsum": (lambda u, x, sp: x.cumsum(), "any", "manual"),
+    "cumprod": (lambda u, x, sp: x.cumprod(), "any", "manual"), "min": (lambda u, x, sp: x.min(), "any", "manual"), "dot-self": (lambda u, x, sp: x.dot(x), "any", "manual"),
+    "argsort": (lambda u, x, sp: x.argsort(), "nd", "manual"), "round": (lambda u, x, sp: x.round(1), "any", "manual"),
+    "clip-self": (lambda u, x, sp: x.clip(x.min(), x.max()), "any", "manual"), "clip-bare": (lambda u, x, sp: x.clip(1.0, 5.0), "any", "manual"),
+    "astype": (lambda u, x, sp: x.astype("f4"), "any", "manual"), "reshape": (lambda u, x, sp: x.reshape(-1), "any", "manual"),
+    "ravel": (lambda u, x, sp: x.ravel(), "any", "manual"), "transpose": (lambda u, x, sp: x.T, "any", "manual"), "flatten": (lambda u, x, sp: x.flatten(), "any", "manual"),
+    "tolist": (lambda u, x, sp: x.tolist(), "any", "manual"), "str": (lambda u, x, sp: str(x), "any", "manual"), "repr": (lambda u, x, sp: repr(x), "any", "manual"),
+    "format": (lambda u, x, sp: format(x), "any", "manual"), "to_string": (lambda u, x, sp: x.to_string(), "0d", "manual"),
+    "eq-self": (lambda u, x, sp: (x == x, x != x), "any", "tap"), "eq-bare": (lambda u, x, sp: (x == 1, x != 1.0), "any", "tap"),
+    "hash-units": (lambda u, x, sp: hash(x.units), "any", "manual"), "unit_quantity": (lambda u, x, sp: (x.unit_quantity, x.uq), "any", "manual"),
+    "unit_array": (lambda u, x, sp: (x.unit_array, x.ua), "any", "manual"), "value": (lambda u, x, sp: (x.value, x.v, x.d, x.ndview), "any", "manual"),
+    "units-props": (lambda u, x, sp: (x.units.is_dimensionless, x.units.dimensions, x.units.latex_repr, x.units.is_atomic, x.units.is_code_unit), "any", "manual"),
+    "has_equivalent": (lambda u, x, sp: x.has_equivalent("thermal"), "any", "manual"),
+    "units-get_base_equivalent": (lambda u, x, sp: x.units.get_base_equivalent(), "any", "manual"), "units-as_coeff_unit": (lambda u, x, sp: x.units.as_coeff_unit(), "any", "manual"),
+    "units-get_conversion_factor": (lambda u, x, sp: x.units.get_conversion_factor(u.Unit(sp.commens)), "any", "manual"),
+    "units-same_dimensions_as": (lambda u, x, sp: x.units.same_dimensions_as(u.Unit(sp.commens)), "any", "manual"),
+    "units-latex": (lambda u, x, sp: x.units.latex_representation(), "any", "manual"), "units-times-number": (lambda u, x, sp: 3.0 * x.units, "any", "manual"),
+    "units-times-null": (lambda u, x, sp: (x.units * u.Unit(), u.Unit() * x.units, x.units / u.Unit()), "any", "manual"),
+    "float": (lambda u, x, sp: float(x), "0d", "manual"), "from-operand": (lambda u, x, sp: u.unyt_array(x), "any", "manual"),
+    "quantity-from-operand": (lambda u, x, sp: u.unyt_quantity(x), "0d", "manual"), "array-with-own-units": (lambda u, x, sp: u.unyt_array(x.d, x.units), "any", "manual"),
+}
+S_FAULTY = {"to-other": "dimension-mismatch", "to-unknown": "unknown-unit", "to_equivalent-other": "equivalence-not-covering", "in_base-bogus": "junk-operand",
+            "to-bad-equivalence": "invalid-equivalence", "convert_to_units-other": "dimension-mismatch", "convert_to_units-unknown": "unknown-unit",
+            "convert_to_base-bogus": "junk-operand", "convert_to_equivalent-bad": "invalid-equivalence", "pow-self": "non-dimensionless-exponent"}
+# array functions: name -> (callable(unyt, x, p), layouts, takes a bare partner p)
+S_FUNCS = {
+    "sum": (lambda u, x, p: np.sum(x), "any", False), "prod": (lambda u, x, p: np.prod(x), "any", False), "mean": (lambda u, x, p: np.mean(x), "any", False),
+    "std": (lambda u, x, p: np.std(x), "any", False), "var": (lambda u, x, p: np.var(x), "any", False), "median": (lambda u, x, p: np.median(x), "any", False),
+    "cumsum": (lambda u, x, p: np.cumsum(x), "any", False), "cumprod": (lambda u, x, p: np.cumprod(x), "any", False), "sort": (lambda u, x, p: np.sort(x), "nd", False),
+    "unique": (lambda u, x, p: np.unique(x), "any", False), "concatenate-self": (lambda u, x, p: np.concatenate([x, x]), "nd", False),
+    "stack-self": (lambda u, x, p: np.stack([x, x]), "any", False), "where": (lambda u, x, p: np.where(np.ones(np.shape(x), dtype=bool), x, x), "any", False),
+    "around": (lambda u, x, p: np.around(x, 1), "any", False), "diff": (lambda u, x, p: np.diff(x), "1d", False), "gradient": (lambda u, x, p: np.gradient(x), "1d", False),
+    "linalg.norm": (lambda u, x, p: np.linalg.norm(x), "nd", False), "linalg.inv": (lambda u, x, p: np.linalg.inv(x), "2d", False), "linalg.det": (lambda u, x, p: np.linalg.det(x), "2d", False),
+    "isclose-self": (lambda u, x, p: np.isclose(x, x), "any", False), "allclose-self": (lambda u, x, p: np.allclose(x, x), "any", False),
+    "array_equal-self": (lambda u, x, p: np.array_equal(x, x), "any", False), "linspace": (lambda u, x, p: np.linspace(x, x, 3), "any", False),
+    "histogram": (lambda u, x, p: np.histogram(x, bins=2), "1d", False), "max": (lambda u, x, p: np.max(x), "any", False), "ptp": (lambda u, x, p: np.ptp(x), "any", False),
+    "nansum": (lambda u, x, p: np.nansum(x), "any", False), "percentile": (lambda u, x, p: np.percentile(x, 30), "any", False), "ones_like": (lambda u, x, p: np.ones_like(x), "any", False),
+    "full_like-bare": (lambda u, x, p: np.full_like(x, 2.0), "any", False), "tile": (lambda u, x, p: np.tile(x, 2), "any", False), "roll": (lambda u, x, p: np.roll(x, 1), "any", False),
+    "flip": (lambda u, x, p: np.flip(x), "nd", False), "fft": (lambda u, x, p: np.fft.fft(x), "1d", False), "copy": (lambda u, x, p: np.copy(x), "any", False),
+    "asarray": (lambda u, x, p: np.asarray(x), "any", False), "array2string": (lambda u, x, p: np.array2string(x), "any", False),
+    "dot": (lambda u, x, p: np.dot(x, p), "1d", True), "dot-r": (lambda u, x, p: np.dot(p, x), "1d", True), "outer": (lambda u, x, p: np.outer(x, p), "1d", True),
+    "outer-r": (lambda u, x, p: np.outer(p, x), "1d", True), "inner": (lambda u, x, p: np.inner(x, p), "1d", True), "kron": (lambda u, x, p: np.kron(x, p), "1d", True),
+    "kron-r": (lambda u, x, p: np.kron(p, x), "1d", True), "convolve": (lambda u, x, p: np.convolve(x, p), "1d", True), "correlate": (lambda u, x, p: np.correlate(p, x), "1d", True),
+    "vdot": (lambda u, x, p: np.vdot(x, p), "1d", True), "tensordot": (lambda u, x, p: np.tensordot(x, p, 1), "1d", True), "einsum": (lambda u, x, p: np.einsum("i,i", x, p), "1d", True),
+    "cross": (lambda u, x, p: np.cross(np.resize(x, 3), np.resize(p, 3)), "1d", True), "trapezoid": (lambda u, x, p: np.trapezoid(x, p), "1d", True),
+    "average-w": (lambda u, x, p: np.average(x, weights=p), "1d", True), "interp": (lambda u, x, p: np.interp(p, np.sort(np.asarray(p)), x), "1d", True),
+    "clip-bare": (lambda u, x, p: np.clip(x, 1.0, 5.0), "any", False), "append-bare": (lambda u, x, p: np.append(x, p), "1d", True),
+    "linalg.solve": (lambda u, x, p: np.linalg.solve(x, np.ones(2)), "2d", False), "matmul-func": (lambda u, x, p: np.matmul(x, np.eye(2)), "2d", False),
+}
+S_FUNC_PARTNERS = ["nd-f8", "nd-f4-strided", "nd-i4", "list", "tuple", "unitless-array", "unitless-view", "nd-readonly", "list-of-int"]
+# Unit arithmetic with the spelled Unit object itself as the operand: name -> (callable(unyt, U, v, sp), partner kinds or None, tapped)
+S_UNIT_PARTNERS = ["null-unit", "unit-object", "self", "same-spelling", "py-float", "py-int", "fraction", "np-float32", "nd-f8", "nd-i4", "list", "unitless-quantity",
+                   "unitless-array", "dimensionless-quantity", "other-dimension", "junk-str", "none"]
+S_UNITOPS = {
+    "mul": (lambda u, U, v, sp: U * v, True, True), "rmul": (lambda u, U, v, sp: v * U, True, True), "div": (lambda u, U, v, sp: U / v, True, True),
+    "rdiv": (lambda u, U, v, sp: v / U, True, True),
+    "pow2": (lambda u, U, v, sp: U ** 2, False, True), "pow-1": (lambda u, U, v, sp: U ** -1, False, True), "pow-half": (lambda u, U, v, sp: U ** 0.5, False, True),
+    "pow0": (lambda u, U, v, sp: U ** 0, False, True), "pow1": (lambda u, U, v, sp: U ** 1, False, True), "pow-third": (lambda u, U, v, sp: U ** (1 / 3), False, True),
+    "get_base_equivalent": (lambda u, U, v, sp: U.get_base_equivalent(), False, True), "get_base_equivalent-cgs": (lambda u, U, v, sp: U.get_base_equivalent("cgs"), False, True),
+    "get_base_equivalent-imperial": (lambda u, U, v, sp: U.get_base_equivalent("imperial"), False, True),
+    "get_cgs_equivalent": (lambda u, U, v, sp: U.get_cgs_equivalent(), False, True), "get_mks_equivalent": (lambda u, U, v, sp: U.get_mks_equivalent(), False, True),
+    "as_coeff_unit": (lambda u, U, v, sp: U.as_coeff_unit(), False, True), "copy": (lambda u, U, v, sp: U.copy(), False, True), "copy-deep": (lambda u, U, v, sp: U.copy(deep=True), False, True),
+    "get_conversion_factor": (lambda u, U, v, sp: U.get_conversion_factor(u.Unit(sp.commens)), False, True),
+    "deepcopy": (lambda u, U, v, sp: __import__("copy").deepcopy(U), False, False), "pickle": (lambda u, U, v, sp: __import__("pickle").loads(__import__("pickle").dumps(U)), False, False),
+    "eq": (lambda u, U, v, sp: (U == u.Unit(sp.commens), U != u.Unit(sp.text), hash(U)), False, False), "str": (lambda u, U, v, sp: (str(U), repr(U)), False, False),
+    "latex": (lambda u, U, v, sp: (U.latex_repr, U.latex_representation()), False, False), "props": (lambda u, U, v, sp: (U.is_dimensionless, U.is_atomic, U.dimensions, U.base_value, U.expr), False, False),
+    "same_dimensions_as": (lambda u, U, v, sp: U.same_dimensions_as(u.Unit(sp.commens)), False, False), "has_equivalent": (lambda u, U, v, sp: U.has_equivalent("thermal"), False, False),
+    "sqrt": (lambda u, U, v, sp: np.sqrt(U), False, False), "quantity-with": (lambda u, U, v, sp: u.unyt_quantity(2.0, U), False, False),
+    "array-with-times-number": (lambda u, U, v, sp: u.unyt_array([1.0, 2.0], U) * 2, False, False), "array-with-divided": (lambda u, U, v, sp: 2 / u.unyt_array([1.0, 2.0], U), False, False),
+    "Unit-from-Unit": (lambda u, U, v, sp: u.Unit(U), False, False), "reparse": (lambda u, U, v, sp: u.Unit(str(U)), False, False),
+}
+S_UNIT_ROUTES = ["string", "unit-arith", "registry-string", "unit-copy", "restored", "from-array"]
+
+
+def spelled_items():
+    items = []
+    for uf in ufuncs(2):
+        if getattr(np, uf).signature is not None:
+            continue
+        for form in S_FORMS2:
+            if form in ("op", "rop") and uf not in OPS:
+                continue
+            items.append(["uf2", uf, form])
+    for uf in ufuncs(1):
+        if getattr(np, uf).signature is not None:
+            continue
+        for form in S_FORMS1:
+            if form == "method" and uf not in UOPS:
+                continue
+            items.append(["uf1", uf, form])
+    items += [["meth", n, ""] for n in sorted(S_METHODS)]
+    items += [["fn", n, ""] for n in sorted(S_FUNCS)]
+    items += [["unit", n, ""] for n in sorted(S_UNITOPS)]
+    return items
+
+
+# ---------------------------------------------------------------------------------------------- read-only targets
+# Every in-place call family with a target the caller is not allowed to write to (a read-only array, a read-only view of a writeable
+# buffer, a read-only 0-d quantity, a transposed read-only view, an array over an immutable bytes object): NumPy refuses the write, so
+# the call has to fail - and clause (b) then demands numbers and unit of the target exactly as they were.
+RO_LAYOUTS = ["ro", "ro-view", "ro-0d", "ro-T", "ro-bytes"]
+RO_DTYPES = {"quick": ["f8", "f4", "i8", "i4", "i1"], "thorough": ["f8", "f4", "f2", "c16", "i8", "i4", "i2", "u4", "i1", "u1"]}
+RO_CONV = [["km", ["m", "mile", "1000*m"]], ["g", ["kg", "lb"]], ["K", ["degC", "R"]], ["degC", ["K", "degF"]], ["J", ["erg", "kg*m**2/s**2"]],
+           ["A", ["statA", "mA"]], ["km/s", ["m/s"]], ["3*km", ["m"]], ["dimensionless", ["percent"]], ["degree", ["rad"]], ["m**2/cm", ["m", "cm"]]]
+RO_EQUIV = [["K", "keV", "thermal"], ["g", "J", "mass_energy"], ["angstrom", "keV", "spectral"], ["km/s", "K", "sound_speed"], ["Msun", "km", "schwarzschild"]]
+RO_FUNCS = {
+    "clip": lambda e, t: np.clip(e["a"], e["a"].min(), e["a"].max(), out=t), "around": lambda e, t: np.around(e["a"], 1, out=t),
+    "cumsum": lambda e, t: np.cumsum(e["a"], out=t), "cumprod": lambda e, t: np.cumprod(e["a"], out=t), "take": lambda e, t: np.take(e["a"], np.arange(e["a"].size).reshape(e["a"].shape), out=t),
+    "sum-axis": lambda e, t: np.sum(e["A"], axis=0, out=t), "mean-axis": lambda e, t: np.mean(e["A"], axis=0, out=t), "max-axis": lambda e, t: np.max(e["A"], axis=0, out=t),
+    "std-axis": lambda e, t: np.std(e["A"], axis=0, out=t), "prod-axis": lambda e, t: np.prod(e["A"], axis=0, out=t), "median-axis": lambda e, t: np.median(e["A"], axis=0, out=t),
+    "copyto": lambda e, t: np.copyto(t, e["a"]), "copyto-bare": lambda e, t: np.copyto(t, 2.5), "put": lambda e, t: np.put(t, [0], e["q"]), "place": lambda e, t: np.place(t, np.ones(t.shape, dtype=bool), e["q"]),
+    "putmask": lambda e, t: np.putmask(t, np.ones(t.shape, dtype=bool), e["q"]), "fill_diagonal": lambda e, t: np.fill_diagonal(t, e["q"]),
+    "method-fill": lambda e, t: t.fill(e["q"]), "method-sort": lambda e, t: t.sort(), "method-clip-out": lambda e, t: e["a"].clip(e["a"].min(), e["a"].max(), out=t),
+    "method-round-out": lambda e, t: e["a"].round(1, out=t), "method-cumsum-out": lambda e, t: e["a"].cumsum(out=t), "nan_to_num-inplace": lambda e, t: np.nan_to_num(t, copy=False),
+}
+RO_MANUAL = {"method-fill", "method-sort", "method-clip-out", "method-round-out", "method-cumsum-out"}
+RO_NEEDS = {"sum-axis": "row", "mean-axis": "row", "max-axis": "row", "std-axis": "row", "prod-axis": "row", "median-axis": "row", "fill_diagonal": "2d"}
+
+
+def mk_ro(unyt, r, unit, dt, layout, shape=None):
+    """read-only target of the given layout -> (target, holder keeping its buffer alive)"""
+    ua = unyt.unyt_array
+    if layout == "ro":
+        a = ua(_vals(r, 4, dt) if shape is None else _vals(r, int(np.prod(shape)), dt).reshape(shape), unit); a.flags.writeable = False; return a, a
+    if layout == "ro-view":         # the buffer itself stays writeable: the caller only handed out a read-only window
+        n = 4 if shape is None else int(np.prod(shape))
+        b = ua(_vals(r, 2 * n + 1, dt), unit); v = b[1::2][:n]
+        if shape is not None:
+            v = v.reshape(shape) if v.reshape(shape).base is not None and np.shares_memory(v.reshape(shape), b) else v
+        v.flags.writeable = False; return v, b
+    if layout == "ro-0d":
+        q = unyt.unyt_quantity(_vals(r, 1, dt)[0], unit); q.flags.writeable = False; return q, q
+    if layout == "ro-T":
+        b = ua(_vals(r, 4, dt).reshape(2, 2), unit); v = b.T; v.flags.writeable = False; return v, b
+    if layout == "ro-bytes":        # NumPy arrays over immutable Python objects can never be written
+        n = 4 if shape is None else int(np.prod(shape))
+        raw = _vals(r, n, dt).tobytes()
+        v = np.frombuffer(raw, dtype=dt)
+        if shape is not None:
+            v = v.reshape(shape)
+        a = ua(v, unit); return a, (a, raw)
+    raise KeyError(layout)
+
+
+def ro_items():
+    items = [["conv", i, ""] for i in range(len(RO_CONV))] + [["equiv", i, ""] for i in range(len(RO_EQUIV))]
+    for uf in ufuncs(2):
+        for form in ("iop", "out-in0", "out-in1", "out", "at", "accumulate-out", "reduce-out", "outer-out"):
+            if form == "iop" and (uf not in OPS or OPS[uf][1] is None):
+                continue
+            if getattr(np, uf).signature is not None and form not in ("iop", "out-in0", "out"):
+                continue
+            if getattr(np, uf).nout != 1 and form not in ("out", "out-in0"):
+                continue
+            items.append(["uf2", uf, form])
+    for uf in ufuncs(1):
+        if getattr(np, uf).signature is not None:
+            continue
+        items += [["uf1", uf, "out-self"], ["uf1", uf, "out"]]
+    items += [["fn", n, ""] for n in sorted(RO_FUNCS)]
+    items += [["setitem", vk, ""] for vk in ("bare", "same", "commens", "mismatch", "array-commens", "list", "dimless", "junk")]
+    return items
+
+
 # ---------------------------------------------------------------------------------------------- batches
 def _plan(tier):
     return {"draws": 1 if tier == "quick" else 10, "nb": 8 if tier == "quick" else 32}
@@ -410,6 +628,16 @@ def batches(tier, seed):
         out.append((f"ufmeth/{i}", {"g": "ufmeth", "items": c, "seed": seed, "tier": tier}))
     for i, c in enumerate(chunks(rescale_items(), 12 if tier == "quick" else 48)):
         out.append((f"rescale/{i}", {"g": "rescale", "items": c, "seed": seed, "tier": tier}))
+    SPL.selfcheck()
+    sitems = spelled_items()
+    # interleaved, so that every batch (= every fresh process) holds all item classes and is of similar cost
+    nsb = 16 if tier == "quick" else 48
+    for i in range(nsb):
+        out.append((f"spelled/{i}", {"g": "spelled", "items": sitems[i::nsb], "seed": seed, "tier": tier}))
+    ritems = ro_items()
+    nrb = 6 if tier == "quick" else 16
+    for i in range(nrb):
+        out.append((f"rotarget/{i}", {"g": "rotarget", "items": ritems[i::nrb], "seed": seed, "tier": tier}))
     out.append(("setitem", {"g": "setitem", "items": [], "seed": seed, "tier": tier}))
     out.append(("unitop", {"g": "unitop", "items": [], "seed": seed, "tier": tier}))
     out.append(("methods", {"g": "methods", "items": [], "seed": seed, "tier": tier}))
@@ -676,6 +904,299 @@ class Driver:
                     self.obs.subject = None
                 self.rec.count("rescale:calls")
                 self.rec.count("rescale:" + ("returned" if outcome == "returned" else outcome))
+
+    # ------------------------------------------------------------------ spelled-operand sweep (unit spelling x route x partner kind)
+    def _spelled_unit(self, sp, route):
+        """the spelled Unit object itself, obtained the given way -> (Unit, holder)"""
+        unyt = self.unyt
+        if route == "string":
+            return unyt.Unit(sp.text), None
+        if route == "unit-arith":
+            return SPL.unit_by_arithmetic(unyt, sp.text), None
+        if route == "registry-string":
+            reg = unyt.UnitRegistry()
+            return unyt.Unit(sp.text, registry=reg), (reg, unyt.unyt_quantity(1.0, sp.text, registry=reg))
+        if route == "unit-copy":
+            return unyt.Unit(sp.text).copy(), None
+        if route == "restored":
+            import pickle
+            return pickle.loads(pickle.dumps(unyt.Unit(sp.text))), None
+        if route == "from-array":
+            a = unyt.unyt_array([1.0, 2.0], sp.text)
+            return a.units, a
+        raise KeyError(route)
+
+    def _spelled_case(self, label, fault, fn, subj, sp, route, pk, partner=None, manual_op=None, inplace=False):
+        """one judged call (and, for a quarter of the cases, the same call again: memoised path) with the spelled operand declared to the observer"""
+        obs, rec = self.obs, self.rec
+        cont = SPL.container_state(partner)
+        obs.spelled = (subj, sp.family, route, pk)
+        try:
+            reps = 2 if (not inplace and self.r.random() < 0.25) else 1
+            for k in range(reps):
+                man = None
+                if manual_op is not None:
+                    ins = [("self", subj)] + ([("arg0", partner)] if partner is not None and partner is not subj else [])
+                    man = obs.manual(manual_op, inputs=ins)
+                outcome = self.run(label, fault, fn, manual=man)
+                rec.count("spelled:calls")
+                rec.count("spelled:" + ("returned" if outcome == "returned" else "raised"))
+                if k:
+                    rec.count("spelled:repeat-calls")
+        finally:
+            obs.spelled = None
+        if cont is not None:
+            obs.busy = True
+            try:
+                if SPL.container_state(partner) != cont:
+                    obs._violation(f"C18:{label[1]}/{label[2]}:input-mutated:container:{pk}", f"{label}: the list passed as operand holds other objects after the call", {"label": label})
+                else:
+                    obs._ok(("spelled-container", label[1], label[2], pk))
+            finally:
+                obs.busy = False
+        # evidence that the spelling is in non-reduced form in the library's own sense: simplify() on a throw-away copy rewrites it
+        # (once per text, after the judged call, invisible to the observer; never part of a verdict)
+        if sp.text not in self._reducible and self.r.random() < 0.2:
+            obs.busy = True
+            try:
+                # a new object that no registry cache, array or unit rule holds
+                c = SPL.unit_by_arithmetic(self.unyt, sp.text) if SPL.FAMILIES[sp.family][2] else self.unyt.Unit(sp.text).copy()
+                before = str(c.expr)
+                c.simplify()
+                self._reducible[sp.text] = str(c.expr) != before
+            except Exception:
+                self._reducible[sp.text] = None
+            finally:
+                obs.busy = False
+            rec.count("spelled:spellings")
+            rec.count("spelled:spelling-" + {True: "reducible", False: "already-reduced", None: "simplify-raised"}[self._reducible[sp.text]])
+
+    def g_spelled(self, items):
+        unyt, r, tier = self.unyt, self.r, self.tier
+        self._reducible = {}
+        mult = 1 if tier == "quick" else 6
+        lays_for = {"any": SPL.LAYOUTS, "nd": ["own", "step", "T"], "1d": ["own", "step"], "2d": ["T"], "0d": ["0d", "elem"]}
+        fams = sorted(SPL.FAMILIES)
+        nfam = [0]
+
+        def spelling():
+            # families in rotation (every family is met by every batch), pool and symbols drawn
+            nfam[0] += 1
+            return SPL.draw(r, family=fams[(nfam[0] + self.seed) % len(fams)])
+
+        def subject(sp, lays):
+            rts = SPL.routes_for(sp.family)
+            route = r.choices(rts, weights=[SPL.ROUTE_WEIGHT[x_] for x_ in rts])[0]
+            lay = r.choice(lays)
+            dt = r.choice(SPL.DTYPES)
+            try:
+                x, hold = SPL.operand(unyt, r, sp, route, lay, dt)
+            except Exception as e:
+                self.rec.count(f"spelled:operand-not-built:{route}:{type(e).__name__}")
+                return None
+            return x, hold, route, lay, dt
+
+        for kind, name, form in items:
+            if kind == "uf2":
+                uf = getattr(np, name)
+                for pk in SPL.PARTNER_KINDS * mult:
+                    sp = spelling()
+                    got = subject(sp, SPL.LAYOUTS)
+                    if got is None:
+                        continue
+                    x, hold, route, lay, dt = got
+                    p, faulty = SPL.partner(unyt, r, x, sp, pk)
+                    fault = ("dimension-mismatch" if pk == "other-dimension" else "junk-operand") if faulty else None
+                    label = ["spelled", name, form, sp.text, route, lay, dt, pk]
+                    if form == "call":
+                        fn = lambda: uf(x, p)
+                    elif form == "rcall":
+                        fn = lambda: uf(p, x)
+                    elif form == "op":
+                        fn = lambda: OPS[name][0](x, p)
+                    elif form == "rop":
+                        fn = lambda: OPS[name][0](p, x)
+                    else:
+                        fn = lambda: uf.outer(x, p)
+                    self._spelled_case(label, fault, fn, x, sp, route, pk, partner=p)
+            elif kind == "uf1":
+                uf = getattr(np, name)
+                for _ in range(4 * mult):
+                    sp = spelling()
+                    got = subject(sp, SPL.LAYOUTS)
+                    if got is None:
+                        continue
+                    x, hold, route, lay, dt = got
+                    fn = (lambda: uf(x)) if form == "call" else (lambda: UOPS[name](x))
+                    self._spelled_case(["spelled", name, form, sp.text, route, lay, dt], None, fn, x, sp, route, "none-unary")
+            elif kind == "meth":
+                f0, lays, how = S_METHODS[name]
+                for _ in range(6 * mult):
+                    sp = spelling()
+                    got = subject(sp, lays_for[lays])
+                    if got is None:
+                        continue
+                    x, hold, route, lay, dt = got
+                    self._spelled_case(["spelled", "method", name, sp.text, route, lay, dt], S_FAULTY.get(name), lambda: f0(unyt, x, sp), x, sp, route, "none-method",
+                                       manual_op=("method/" + name) if how == "manual" else None, inplace=(how == "inplace"))
+            elif kind == "fn":
+                f0, lays, takes = S_FUNCS[name]
+                for pk in (S_FUNC_PARTNERS if takes else ["none-function"] * 4) * mult:
+                    sp = spelling()
+                    got = subject(sp, lays_for[lays])
+                    if got is None:
+                        continue
+                    x, hold, route, lay, dt = got
+                    p = SPL.partner(unyt, r, x, sp, pk)[0] if takes else None
+                    self._spelled_case(["spelled", "function", name, sp.text, route, lay, dt, pk], None, lambda: f0(unyt, x, p), x, sp, route, pk, partner=p)
+            elif kind == "unit":
+                f0, takes, tapped = S_UNITOPS[name]
+                for pk in (S_UNIT_PARTNERS if takes else ["none-unit"] * 4) * mult:
+                    sp = spelling()
+                    rts = [x_ for x_ in S_UNIT_ROUTES if x_ != "unit-arith" or SPL.FAMILIES[sp.family][2]]
+                    route = r.choices(rts, weights=[SPL.ROUTE_WEIGHT.get(x_, 3) for x_ in rts])[0]
+                    try:
+                        U, hold = self._spelled_unit(sp, route)
+                    except Exception as e:
+                        self.rec.count(f"spelled:operand-not-built:{route}:{type(e).__name__}")
+                        continue
+                    v, faulty = (None, False)
+                    if takes:
+                        if pk == "same-spelling":
+                            v = unyt.Unit(sp.text).copy()
+                        elif pk == "self":
+                            v = U
+                        else:
+                            v, faulty = SPL.partner(unyt, r, np.zeros(2), sp, pk)
+                    self._spelled_case(["spelled", "unit", name, sp.text, route, pk], "junk-operand" if faulty and pk != "other-dimension" else None,
+                                       lambda: f0(unyt, U, v, sp), U, sp, "unit/" + route, pk, partner=v, manual_op=None if tapped else "Unit/" + name)
+
+    # ------------------------------------------------------------------ read-only targets of every in-place call family
+    def _ro_case(self, family, label, fn, target, layout, manual_op=None, inputs=()):
+        obs = self.obs
+        obs.ro_layout = layout
+        try:
+            man = obs.manual(manual_op, inputs=list(inputs), targets=[("self", target)]) if manual_op else None
+            outcome = self.run(label, "read-only-target", fn, manual=man)
+        finally:
+            obs.ro_layout = None
+        self.rec.count(f"rotarget:{family}:" + ("returned" if outcome == "returned" else "raised"))
+        self.rec.count(f"rotarget:layout:{layout}")
+
+    def g_rotarget(self, items):
+        unyt, r, tier = self.unyt, self.r, self.tier
+        dts = RO_DTYPES[tier]
+
+        def draws(lays=RO_LAYOUTS):
+            if tier == "thorough":
+                return [(lay, dt) for lay in lays for dt in dts]
+            # quick: every dtype family of the target (float / integer / 8-bit integer: three different code paths in the library) once,
+            # exact dtype and layout drawn
+            return [(r.choice(lays), r.choice([d for d in dts if np.dtype(d).kind in "fc"])),
+                    (r.choice(lays), r.choice([d for d in dts if np.dtype(d).kind in "iu" and np.dtype(d).itemsize > 1])),
+                    (r.choice(lays), r.choice([d for d in dts if np.dtype(d).kind in "iu" and np.dtype(d).itemsize == 1]))]
+
+        for kind, name, form in items:
+            if kind == "conv":
+                src, targets = RO_CONV[name]
+                for lay, dt in draws() + draws():
+                    calls = [("convert_to_units", (t,)) for t in targets] + [("convert_to_units", (unyt.Unit(targets[0]),)), ("convert_to_base", ()), ("convert_to_cgs", ()),
+                                                                            ("convert_to_mks", ()), ("convert_to_base", ("imperial",)), ("convert_to_base", ("cgs",))]
+                    for meth, args in calls:
+                        t, hold = mk_ro(unyt, r, src, dt, lay)
+                        self._ro_case("convert", ["rotarget", meth, src, str(args[0]) if args else "", lay, dt], lambda: getattr(t, meth)(*args), t, lay)
+            elif kind == "equiv":
+                src, dst, eq = RO_EQUIV[name]
+                for lay, dt in draws():
+                    for meth, args, kw in (("convert_to_equivalent", (dst, eq), {}), ("convert_to_units", (dst, eq), {}), ("convert_to_units", (dst,), {"equivalence": eq}),
+                                           ("convert_to_base", (), {"equivalence": eq}), ("convert_to_cgs", (), {"equivalence": eq})):
+                        t, hold = mk_ro(unyt, r, src, dt, lay)
+                        self._ro_case("convert-equivalence", ["rotarget", meth, src, dst, eq, lay, dt], lambda: getattr(t, meth)(*args, **kw), t, lay)
+            elif kind == "uf2":
+                uf = getattr(np, name)
+                for lay, dt in draws():
+                    aunit = r.choice(list(UNITS))
+                    comm, mism = UNITS[aunit]
+                    if uf.signature is not None:
+                        lay = "ro-T"
+                    bk = r.choice(["same", "commens", "bare-scalar", "bare-array", "dimless", "alias"])
+                    label = ["rotarget", name, form, aunit, bk, lay, dt]
+                    if form in ("iop", "out-in0", "at", "out-in1"):
+                        t, hold = mk_ro(unyt, r, aunit, dt, lay)
+                        b, _f = second(unyt, r, t, aunit, bk)
+                        if form == "iop":
+                            def f(t=t, b=b):
+                                OPS[name][1](t, b)
+                            self._ro_case("augmented-assignment", label, f, t, lay)
+                        elif form == "out-in0":
+                            self._ro_case("ufunc-out", label, lambda: uf(t, b, out=t if uf.nout == 1 else (t, None)), t, lay)
+                        elif form == "out-in1":
+                            a2 = like(unyt, r, t, aunit)
+                            self._ro_case("ufunc-out", label, lambda: uf(a2, t, out=t), t, lay)
+                        else:
+                            if t.ndim:
+                                self._ro_case("ufunc-at", label, lambda: uf.at(t, [0], b if np.ndim(b) == 0 else np.asarray(b).ravel()[0]), t, lay)
+                    else:
+                        a, ha = mk(unyt, r, aunit, "f8" if np.dtype(dt).kind in "iu" else dt, "T" if (uf.signature is not None or form in ("reduce-out", "accumulate-out") and r.random() < 0.5) else "own")
+                        b, _f = second(unyt, r, a, aunit, bk)
+                        if form == "out":
+                            try:
+                                shape = np.shape(uf(np.ones(np.shape(a)), np.ones(np.shape(b) if isinstance(b, np.ndarray) else ())))
+                                shape = shape[0] if uf.nout > 1 and isinstance(shape, tuple) and shape and isinstance(shape[0], tuple) else shape
+                            except Exception:
+                                shape = np.shape(a)
+                            if uf.nout > 1:
+                                shape = np.shape(a)
+                            t, hold = mk_ro(unyt, r, "kg", dt, lay if (lay not in ("ro-0d", "ro-T")) else "ro", shape=tuple(shape))
+                            self._ro_case("ufunc-out", label, lambda: uf(a, b, out=t if uf.nout == 1 else (t, None)), t, lay)
+                        elif form == "accumulate-out":
+                            t, hold = mk_ro(unyt, r, "kg", dt, "ro" if lay in ("ro-0d", "ro-T") else lay, shape=a.shape)
+                            self._ro_case("ufunc-method-out", label, lambda: uf.accumulate(a, out=t), t, lay)
+                        elif form == "reduce-out":
+                            if a.ndim == 2:
+                                t, hold = mk_ro(unyt, r, "kg", dt, "ro" if lay in ("ro-0d", "ro-T") else lay, shape=(2,))
+                                self._ro_case("ufunc-method-out", label, lambda: uf.reduce(a, axis=0, out=t), t, lay)
+                            else:
+                                t, hold = mk_ro(unyt, r, "kg", dt, "ro-0d")
+                                self._ro_case("ufunc-method-out", label, lambda: uf.reduce(a, out=t), t, "ro-0d")
+                        elif form == "outer-out":
+                            if a.ndim == 1 and isinstance(b, np.ndarray) and b.ndim == 1:
+                                t, hold = mk_ro(unyt, r, "kg", dt, "ro" if lay in ("ro-0d", "ro-T") else lay, shape=(a.size, b.size))
+                                self._ro_case("ufunc-method-out", label, lambda: uf.outer(a, b, out=t), t, lay)
+            elif kind == "uf1":
+                uf = getattr(np, name)
+                for lay, dt in draws():
+                    aunit = r.choice(["km", "dimensionless", "rad", "degC", "K", "3*km"])
+                    label = ["rotarget", name, form, aunit, lay, dt]
+                    if form == "out-self":
+                        t, hold = mk_ro(unyt, r, aunit, dt, lay)
+                        self._ro_case("ufunc-out", label, lambda: uf(t, out=t if uf.nout == 1 else (t, None)), t, lay)
+                    else:
+                        a, ha = mk(unyt, r, aunit, "f8" if np.dtype(dt).kind in "iu" else dt, "own")
+                        t, hold = mk_ro(unyt, r, "kg", dt, "ro" if lay in ("ro-0d", "ro-T") else lay, shape=a.shape)
+                        self._ro_case("ufunc-out", label, lambda: uf(a, out=t if uf.nout == 1 else (t, None)), t, lay)
+            elif kind == "fn":
+                f0 = RO_FUNCS[name]
+                for lay, dt in draws(["ro", "ro-view", "ro-bytes"]):
+                    aunit = r.choice(["km", "degC", "K", "3*km", "dimensionless"])
+                    need = RO_NEEDS.get(name)
+                    e = {"a": mk(unyt, r, aunit, "f8", "own")[0], "A": mk(unyt, r, aunit, "f8", "2d")[0], "q": unyt.unyt_quantity(r.uniform(1, 9), r.choice([aunit, UNITS[aunit][0]]))}
+                    shape = (2,) if need == "row" else (2, 2) if need == "2d" else (4,)
+                    tunit = aunit if name in ("copyto", "copyto-bare", "put", "place", "putmask", "fill_diagonal", "method-fill", "method-sort", "nan_to_num-inplace") else "kg"
+                    t, hold = mk_ro(unyt, r, tunit, dt, lay, shape=shape)
+                    self._ro_case("function-out", ["rotarget", "function", name, aunit, lay, dt], lambda: f0(e, t), t, lay,
+                                  manual_op=("method/" + name) if name in RO_MANUAL else None, inputs=[("a", e["a"]), ("q", e["q"])])
+            elif kind == "setitem":
+                for lay, dt in draws(["ro", "ro-view", "ro-T", "ro-bytes"]) + draws(["ro", "ro-view", "ro-T", "ro-bytes"]):
+                    aunit = r.choice(["km", "K", "degC", "dimensionless", "J", "3*km"])
+                    comm, mism = UNITS[aunit]
+                    t, hold = mk_ro(unyt, r, aunit, dt, lay)
+                    v = {"bare": 2.5, "same": unyt.unyt_quantity(3.0, aunit), "commens": unyt.unyt_quantity(3.0, comm), "mismatch": unyt.unyt_quantity(3.0, mism),
+                         "array-commens": unyt.unyt_array([1.0, 2.0], comm), "list": [1.0, 2.0], "dimless": unyt.unyt_quantity(2.0, "dimensionless"), "junk": "abc"}[name]
+                    for iname, ix in (("int", 0), ("slice", slice(0, 2)), ("all", Ellipsis), ("mask", np.array([True, True] + [False] * 2).reshape(t.shape) if t.ndim == 1 else Ellipsis)):
+                        def f(t=t, ix=ix, v=v):
+                            t[ix] = v
+                        self._ro_case("item-assignment", ["rotarget", "setitem", name, iname, aunit, lay, dt], f, t, lay)
 
     # ------------------------------------------------------------------ unary ufuncs
     def g_unary(self, items):
@@ -1287,12 +1808,19 @@ def extra(tier, seed, results):
             counters[k] = counters.get(k, 0) + v
         reached.update(rr.get("reached", []))
         cells.update(rr.get("cells", []))
-    sub = {"input": 0, "failed-target": 0, "outside": 0, "twin": 0, "rescaled-operand": 0}
+    sub = {"input": 0, "failed-target": 0, "outside": 0, "twin": 0, "rescaled-operand": 0, "spelled-operand": 0, "spelled-container": 0, "read-only-target": 0}
     grid = {"dtype": {}, "layout": {}, "position": {}, "outcome": {}}
+    sgrid = {"family": {}, "route": {}, "partner": {}, "outcome": {}, "entry": {}}
     for c in cells:
         k = c.split("|", 1)[0]
         if k in sub:
             sub[k] += 1
+        if k == "spelled-operand":
+            p = c.split("|")
+            entry = "ufunc" if p[1].startswith("ufunc/") else "function" if p[1].startswith("func/") else "unit-arithmetic" if p[1].startswith(("Unit.", "Unit/")) else \
+                "in-place" if p[1].startswith("convert_to_") else "method"
+            for dim, v in (("family", p[3]), ("route", p[4]), ("partner", p[5]), ("outcome", p[6]), ("entry", entry)):
+                sgrid[dim][v] = sgrid[dim].get(v, 0) + 1
         if k == "rescaled-operand":
             p = c.split("|")
             for dim, v in (("dtype", p[3]), ("layout", p[4]), ("position", p[2]), ("outcome", p[5])):
@@ -1313,7 +1841,15 @@ def extra(tier, seed, results):
     unreached_funcs = sorted(n for n in ("concatenate", "stack", "around", "clip", "choose", "einsum", "take", "dot", "outer", "copyto", "put", "place", "putmask",
                                           "put_along_axis", "fill_diagonal") if not any(x.startswith("func/" + n) for x in reached))
     npcat = sorted(x[len("npcat:"):] for x in reached if x.startswith("npcat:"))
-    ev = {"npcatalog_functions_driven": len(npcat), "sub_monitor_cells": sub, "rescaled_operand_cells": grid,
+    ro_fams = ("convert", "convert-equivalence", "augmented-assignment", "ufunc-out", "ufunc-at", "ufunc-method-out", "function-out", "item-assignment")
+    ro_layouts = {}
+    for c in cells:
+        p = c.split("|")
+        if p[0] == "read-only-target":
+            ro_layouts[p[4]] = ro_layouts.get(p[4], 0) + 1
+    ev = {"npcatalog_functions_driven": len(npcat), "read_only_target_calls": {k: v for k, v in counters.items() if k.startswith("rotarget:")},
+          "read_only_target_cells_by_layout": ro_layouts, "sub_monitor_cells": sub, "rescaled_operand_cells": grid, "spelled_operand_cells": sgrid,
+          "spelled_operand_calls": {k: v for k, v in counters.items() if k.startswith("spelled:")},
           "rescaled_operand_calls": {k: v for k, v in counters.items() if k.startswith("rescale:")}, "faults_raised": fault_seen, "faults_returned": fault_returned, "failed_target_cells_by_exception": failed_by_exc,
           "unreached": {"taps": unreached_taps, "ufuncs": unreached_ufuncs, "out_functions": unreached_funcs},
           "raise_sites_hit": sorted(x[len("raise-site:"):] for x in reached if x.startswith("raise-site:"))[:200],
@@ -1328,6 +1864,19 @@ def extra(tier, seed, results):
     unseen = [f"{dim}={v}" for dim, v in want if not grid[dim].get(v, 0)]
     if unseen:
         raise core.Inconclusive("rescaled-operand sweep never judged: " + ",".join(unseen))
+    swant = [("family", f) for f in SPL.FAMILIES] + [("route", x) for x in SPL.ROUTES] + [("route", "unit/" + x) for x in S_UNIT_ROUTES] + \
+        [("partner", k) for k in SPL.PARTNER_KINDS] + [("partner", k) for k in ("none-unary", "none-method", "none-function", "none-unit")] + \
+        [("outcome", "returned"), ("outcome", "raised")] + [("entry", e) for e in ("ufunc", "function", "unit-arithmetic", "in-place", "method")]
+    unseen = [f"{dim}={v}" for dim, v in swant if not sgrid[dim].get(v, 0)]
+    if unseen:
+        raise core.Inconclusive("spelled-operand sweep never judged: " + ",".join(unseen))
+    if not counters.get("spelled:spelling-reducible", 0) or counters.get("spelled:spelling-reducible", 0) * 2 < counters.get("spelled:spellings", 0):
+        raise core.Inconclusive("spelled-operand sweep: the generated spellings are not in non-reduced form (simplify() on a copy leaves most of them as they are)")
+    if not counters.get("spelled:repeat-calls", 0):
+        raise core.Inconclusive("spelled-operand sweep: no call was repeated on the same operands (memoised path)")
+    unseen = [f for f in ro_fams if not counters.get(f"rotarget:{f}:raised", 0)] + [x for x in RO_LAYOUTS if not ro_layouts.get(x, 0)]
+    if unseen:
+        raise core.Inconclusive("read-only targets: in-place call families / layouts never seen to fail on one: " + ",".join(unseen))
     missing = [f for f, n in fault_seen.items() if n == 0]
     if missing:
         raise core.Inconclusive("injected fault kinds that never made a call raise: " + ",".join(missing))
